@@ -94,6 +94,21 @@ def set_polya_requirement_strategy(flag, polya_requirement_strategy):
 
 
 
+def prepare_reference_index(reference, fai_file_name):
+    # pyfaidx writes a missing or outdated index in place: a run that is killed meanwhile leaves a truncated index that
+    # later runs trust, and runs started together on a new reference read each other's half-written index.
+    # Build the index under a temporary name and move it into place.
+    if os.path.exists(fai_file_name) and os.path.getmtime(fai_file_name) >= os.path.getmtime(reference):
+        return
+    tmp_fai_file_name = "%s.%d.tmp" % (fai_file_name, os.getpid())
+    try:
+        Fasta(reference, indexname=tmp_fai_file_name).close()
+        os.replace(tmp_fai_file_name, fai_file_name)
+    finally:
+        if os.path.exists(tmp_fai_file_name):
+            os.remove(tmp_fai_file_name)
+
+
 def collect_reads_in_parallel(sample, chr_id, args):
     current_chr_record = Fasta(args.reference, indexname=args.fai_file_name)[chr_id]
     if args.high_memory:
@@ -443,6 +458,7 @@ class DatasetProcessor:
             low_ext = outer_ext.lower()
             if low_ext in ['.gz', '.gzip', '.bgz']:
                 try:
+                    prepare_reference_index(self.args.reference, args.fai_file_name)
                     self.reference_record_dict = Fasta(self.args.reference, indexname=args.fai_file_name)
                 except UnsupportedCompressionFormat:
                     gunzipped_reference = os.path.join(args.output, ref_name)
@@ -455,8 +471,10 @@ class DatasetProcessor:
                     os.rename(tmp_gunzipped_reference, gunzipped_reference)
                     logger.info("Loading uncompressed reference from " + gunzipped_reference)
                     self.args.reference = gunzipped_reference
+                    prepare_reference_index(self.args.reference, args.fai_file_name)
                     self.reference_record_dict = Fasta(self.args.reference, indexname=args.fai_file_name)
             else:
+                prepare_reference_index(self.args.reference, args.fai_file_name)
                 self.reference_record_dict = Fasta(self.args.reference, indexname=args.fai_file_name)
         else:
             self.reference_record_dict = None
